@@ -93,6 +93,12 @@ def ev(fn, n, atom=None, depth=0):
         v = atom(n)
         if v is not None:
             return v
+        # a stripped branch condition is the bare lvalue: ask about the load that wraps it
+        p = n.parent
+        if n.lv and p is not None and p.k == "ImplicitCastExpr" and p.ck == "LValueToRValue":
+            v = atom(p)
+            if v is not None:
+                return v
     if n.cv is not None and k != "DeclRefExpr":
         return n.cv  # constant-folded by clang (pointers constants such as (fiber_t*)-1 keep their signed value)
     if k in ("ParenExpr",):
@@ -368,3 +374,55 @@ def is_compiler_fence(fn):
             ids.add(n.id)
     full = is_full_fence(fn)
     return lambda n: n.id in ids or full(n)
+
+
+def reachable_returns(fn, atom):
+    """Return statements reachable from entry when evaluable branches are forced under `atom`."""
+    e = forced_edges(fn, atom)
+    return [r for r in fn.returns() if fn.find_path("entry", lambda n, r=r: n is r, edge_ok=e) is not None]
+
+
+def summary_value(fn, atom):
+    """The unique constant a function returns under `atom` (None when not unique / not constant)."""
+    vals = set()
+    for r in reachable_returns(fn, atom):
+        if not r.kids:
+            return None
+        try:
+            vals.add(ev(fn, r.kids[0], atom))
+        except Unevaluable:
+            return None
+    if len(vals) == 1:
+        return vals.pop()
+    return None
+
+
+def is_param_load(fn, name):
+    did = None
+    for p in fn.params:
+        if p["name"] == name:
+            did = p["did"]
+    if did is None:
+        return lambda n: False
+    return lambda n: (n.k == "ImplicitCastExpr" and n.ck == "LValueToRValue" and strip(n) is not None
+                      and strip(n).k == "DeclRefExpr" and strip(n).did == did)
+
+
+def is_var_load(did):
+    return lambda n: (n.k == "ImplicitCastExpr" and n.ck == "LValueToRValue" and strip(n) is not None
+                      and strip(n).k == "DeclRefExpr" and strip(n).did == did)
+
+
+def is_global_load(name):
+    return lambda n: (n.k == "ImplicitCastExpr" and n.ck == "LValueToRValue" and strip(n) is not None
+                      and strip(n).k == "DeclRefExpr" and strip(n).dk == "global" and strip(n).name == name)
+
+
+def is_errno(n):
+    """`errno`, i.e. *__errno_location(), as an rvalue."""
+    if n.k == "ImplicitCastExpr" and n.ck == "LValueToRValue":
+        m = strip(n)
+        if m is not None and m.k == "UnaryOperator" and m.op == "*":
+            c = strip(m.kids[0])
+            return c is not None and c.k == "CallExpr" and c.callee == "__errno_location"
+    return False
